@@ -54,7 +54,8 @@ check("C04",
       "TLC exhausts Sessions.tla (the reading()/writing() protocol step by step, 2 processes x 2 sessions x 2 puts with an "
       "exception possible in the body, in each backend write of the flush and in end_write; 3 processes in the thorough tier) "
       "for writer exclusion, durability of acknowledged records, readers seeing only complete records, lock freed and file "
-      "closed when idle, and progress under fairness.  Binding A: every (state, whole-session-with-failure-point) pair of "
+      "closed when idle, and progress under fairness; the lock discipline alone (LockProto.tla) is additionally shown to have WriterExclusive and "
+      "LockFreeWhenIdle as an INDUCTIVE invariant with Apalache (4 processes, unbounded time).  Binding A: every (state, whole-session-with-failure-point) pair of "
       "SessionSeq.tla is executed on real long-lived Collection objects (buffered and unbuffered); after each session a "
       "separate process must obtain the write lock and the independently parsed file must equal the model's.  Binding B: "
       "8-16 real processes with random delays and injected failures emit events inside the library lock, ordered by a "
@@ -65,7 +66,7 @@ check("C04",
       "in B are sampled, not exhaustive; bounded model constants in the evidence",
       "TLA+ specs (Sessions, SessionSeq, SessionsTrace) model-checked with TLC incl. liveness; spec->code replay with "
       "fault injection + lock probe; TLC trace validation of real multi-process executions",
-      "DESIGN.md 4/C04", modules=("Sessions", "MCSessions", "SessionSeq", "MCSessionSeq", "SessionsTrace"))
+      "DESIGN.md 4/C04", modules=("Sessions", "MCSessions", "SessionSeq", "MCSessionSeq", "SessionsTrace", "LockProto", "MC_LockProto"))
 
 check("C18",
       "TLC exhausts JobMap.tla (histories of <=3 jobmap runs over 2-3 source keys with scripted per-item outcomes ok / fail / "
